@@ -110,7 +110,7 @@ func runC09(c *Ctx, idx int64) {
 	// and whatever it includes are not part of the tree), which an unsaved edit then adds
 	dynamic := false
 	rootInitial := w.Texts[0]
-	if unsaved < 0 && len(w.Includes[0]) > 0 && r.Chance(1, 3) {
+	if unsaved != 0 && len(w.Includes[0]) > 0 && r.Chance(1, 3) {
 		j := *w.Journals[0]
 		j.Entries = append([]*MEntry(nil), j.Entries[1:]...)
 		if len(j.Entries) > 0 {
@@ -133,7 +133,22 @@ func runC09(c *Ctx, idx int64) {
 	s := NewSession(dir, SessOpt{Root: w.Root})
 	s.Drain()
 	c.Count("workspaces", 1)
-	if dynamic {
+	// the document with the unsaved edit is sometimes opened under another spelling of its URI (the
+	// first letter of the file name percent-encoded); the server answers with its own spelling
+	altSpelling := unsaved >= 0 && r.Chance(1, 3)
+	docURI := func(f int) protocol.DocumentURI {
+		u := w.URI(s, f)
+		if altSpelling && f == unsaved {
+			us := string(u)
+			i := strings.LastIndexByte(us, '/') + 1
+			return protocol.DocumentURI(us[:i] + fmt.Sprintf("%%%02x", us[i]) + us[i+1:])
+		}
+		return u
+	}
+	if altSpelling {
+		c.Count("workspaces_with_other_uri_spelling", 1)
+	}
+	addInclude := func() {
 		c.Count("workspaces_with_include_added_by_edit", 1)
 		u := w.URI(s, 0)
 		s.OpenWait(u, rootInitial)
@@ -141,13 +156,26 @@ func runC09(c *Ctx, idx int64) {
 		s.ChangeFull(u, w.Texts[0])
 		s.WaitPub(u, have)
 	}
-	if unsaved >= 0 {
+	editUnsaved := func() {
 		c.Count("workspaces_with_unsaved_edit", 1)
-		u := w.URI(s, unsaved)
+		u := docURI(unsaved)
 		s.OpenWait(u, diskTexts[unsaved])
 		have := s.Stub.PubCount(u)
 		s.ChangeFull(u, w.Texts[unsaved])
 		s.WaitPub(u, have)
+	}
+	// the unsaved edit may precede the edit that brings the file into the tree: the editor's text counts
+	if dynamic && unsaved > 0 && r.Bool() {
+		c.Count("workspaces_with_unsaved_edit_before_the_include", 1)
+		editUnsaved()
+		addInclude()
+	} else {
+		if dynamic {
+			addInclude()
+		}
+		if unsaved >= 0 {
+			editUnsaved()
+		}
 	}
 	// with an include added by an edit the other files stay on disk in half of the cases: opening
 	// them would bring them into the workspace by another road
@@ -231,7 +259,7 @@ func runC09(c *Ctx, idx int64) {
 				if o.Decl {
 					continue // the cursor on a declaration is not a request target in this server
 				}
-				pos := protocol.TextDocumentPositionParams{TextDocument: protocol.TextDocumentIdentifier{URI: w.URI(s, from)},
+				pos := protocol.TextDocumentPositionParams{TextDocument: protocol.TextDocumentIdentifier{URI: docURI(from)},
 					Position: protocol.Position{Line: uint32(o.Line), Character: uint32(o.U0 + (o.U1-o.U0)/2)}}
 				for _, withDecl := range []bool{false, true} {
 					got, _ := s.Srv.References(ctx, &protocol.ReferenceParams{TextDocumentPositionParams: pos, Context: protocol.ReferenceContext{IncludeDeclaration: withDecl}})
@@ -304,7 +332,11 @@ func runC09(c *Ctx, idx int64) {
 						}
 					}
 					wantTextOpt, _ := applyEdits(w.Texts[f], spansOpt)
-					gotText, prob := applyEdits(w.Texts[f], we.Changes[w.URI(s, f)])
+					fileEdits := we.Changes[w.URI(s, f)]
+					if len(fileEdits) == 0 {
+						fileEdits = we.Changes[docURI(f)]
+					}
+					gotText, prob := applyEdits(w.Texts[f], fileEdits)
 					if prob != nil {
 						fail("rename-malformed", fmt.Sprintf("rename of %s %q: edits for %s are not well-formed: %s", sy.kind, sy.name, w.Names[f], prob.Detail), nil)
 						return
